@@ -28,7 +28,7 @@ Definition vsafe (b : str) : bool :=
 Definition ltok_ok (t : ltok) : bool :=
   match t with
   | LText ps => forallb piece_ok ps && forallb (no_ch_piece 60) ps
-  | LKnown b => known_body b && vsafe b
+  | LKnown b => tag_body b && vsafe b
   | LUnk b => unknown_body b && vsafe b && forallb (fun c => negb (c =? 38)) b
   | LVoice cls pn => forallb class_ok cls && forallb piece_ok pn && forallb (no_ch_piece 60) pn && forallb (no_ch_piece 62) pn
   end.
@@ -151,6 +151,11 @@ Qed.
 
 Lemma known_no_angle : forall b, known_body b = true -> no_angle b = true.
 Proof. intros b H. unfold known_body in H. apply andb_true_iff in H. apply H. Qed.
+Lemma tag_no_angle : forall b, tag_body b = true -> no_angle b = true.
+Proof.
+  intros b H. unfold tag_body in H. apply orb_true_iff in H. destruct H as [H|H]; [apply known_no_angle, H|].
+  apply andb_true_iff in H. apply H.
+Qed.
 Lemma unknown_no_angle : forall b, unknown_body b = true -> no_angle b = true.
 Proof.
   intros b H. unfold unknown_body in H. apply andb_true_iff in H. destruct H as [H _]. apply andb_true_iff in H. apply H.
@@ -182,7 +187,7 @@ Proof.
     cbn [length] in Hf. rewrite app_length in Hf. cbn [length] in Hf.
     assert (E : forall Z0, (60 :: b ++ [62]) ++ Z0 = 60 :: b ++ 62 :: Z0) by (intros; cbn [app]; rewrite <- app_assoc; reflexivity).
     rewrite !E. replace f with (S (length b + 1 + (f - S (length b + 1))))%nat by lia.
-    rewrite voice_tag_copied by (try exact Hv; apply known_no_angle, Hk).
+    rewrite voice_tag_copied by (try exact Hv; apply tag_no_angle, Hk).
     do 3 f_equal. apply IH; [exact Hl|lia].
   - apply andb_true_iff in Ht. destruct Ht as [Ht _]. apply andb_true_iff in Ht. destruct Ht as [Hk Hv].
     cbn [length] in Hf. rewrite app_length in Hf. cbn [length] in Hf.
@@ -410,7 +415,7 @@ Definition vtt_item_ok (it : item) : bool :=
   | IOpen k => tag_k_ok k
   | IClose k => tag_k_ok k
   | IVoice cls nm => forallb class_ok cls && forallb schar_ok_voice nm
-  | IStamp _ => false                      (* timestamp tags: not covered by the segment theorem vtt_tags_by_name *)
+  | IStamp s => stamp_body s              (* H+:MM[:SS].mmm *)
   | IUnk _ name => uname_ok name
   | ICom _ => true
   | IPi _ => true
@@ -426,6 +431,7 @@ Definition toks (it : item) : list ltok :=
   | IClose k => [LKnown (close_body k)]
   | IVoice cls nm => [LVoice cls (map pc nm)]
   | IUnk close name => [LUnk (unk_body close name)]
+  | IStamp s => [LKnown s]
   | _ => []
   end.
 Definition disp_item (it : item) : str :=
@@ -473,12 +479,12 @@ Proof.
   - pose proof (tag_facts k H) as T. unfold tag_chk in T. do 5 (apply andb_true_iff in T; destruct T as [T ?]).
     rewrite ser_open. cbn [toks flat_map lrender ltok_ok lpieces forallb disp_item map]. rewrite app_nil_r.
     repeat split; try reflexivity.
-    + rewrite T. match goal with Hv : vsafe (open_body k) = true |- _ => rewrite Hv end. reflexivity.
+    + unfold tag_body. rewrite T. match goal with Hv : vsafe (open_body k) = true |- _ => rewrite Hv end. reflexivity.
     + unfold no10 in *. cbn [forallb]. rewrite forallb_app. match goal with Hn : forallb _ (open_body k) = true |- _ => rewrite Hn end. reflexivity.
   - pose proof (tag_facts k H) as T. unfold tag_chk in T. do 5 (apply andb_true_iff in T; destruct T as [T ?]).
     rewrite ser_close. cbn [toks flat_map lrender ltok_ok lpieces forallb disp_item map]. rewrite app_nil_r.
     repeat split; try reflexivity.
-    + match goal with Hk : known_body (close_body k) = true |- _ => rewrite Hk end.
+    + unfold tag_body. match goal with Hk : known_body (close_body k) = true |- _ => rewrite Hk end.
       match goal with Hv : vsafe (close_body k) = true |- _ => rewrite Hv end. reflexivity.
     + unfold no10 in *. cbn [forallb]. rewrite forallb_app. match goal with Hn : forallb _ (close_body k) = true |- _ => rewrite Hn end. reflexivity.
   - apply andb_true_iff in H. destruct H as [Hc Hn].
@@ -488,6 +494,21 @@ Proof.
     rewrite map_app, E, prender_app, prender_raw. repeat split; try reflexivity.
     unfold no10. rewrite !forallb_app. fold (no10 (dotted cls)). rewrite (classes_no10 cls Hc).
     rewrite (prender_no_ch 10 (map pc nm)) by (try discriminate; exact D). reflexivity.
+  - (* timestamp tag *)
+    destruct (stamp_chars s H) as (SC & x & t & Es & Hx).
+    assert (NA : no_angle s = true /\ no10 s = true).
+    { clear - SC. unfold no_angle, no10. induction s as [|c s IH]; [split; reflexivity|]. cbn [forallb] in *. apply andb_true_iff in SC.
+      destruct SC as [Hc Hs]. destruct (IH Hs) as [A B]. rewrite A, B.
+      assert (Q : (c =? 60) = false /\ (c =? 62) = false /\ (c =? 10) = false).
+      { unfold stamp_char, is_digit in Hc. repeat split; apply Z.eqb_neq; intros ->; vm_compute in Hc; discriminate. }
+      destruct Q as (-> & -> & ->). split; reflexivity. }
+    destruct NA as [NA N10].
+    cbn [toks flat_map lrender ltok_ok lpieces forallb disp_item ser_item map]. change (F_VTT =? F_VTT) with true. cbv iota.
+    change (lit "<") with [60]. change (lit ">") with [62]. rewrite app_nil_r.
+    assert (VS : vsafe s = true).
+    { subst s. cbn [vsafe]. destruct (Z.eqb_spec x 118) as [->|_]; [vm_compute in Hx; discriminate|reflexivity]. }
+    unfold tag_body. rewrite NA, H, VS, orb_true_r. repeat split; try reflexivity.
+    unfold no10 in *. cbn [app forallb]. rewrite forallb_app, N10. reflexivity.
   - destruct (unk_body_ok cl nm H) as (U1 & U2 & U3 & U4).
     cbn [toks flat_map lrender ltok_ok lpieces forallb disp_item ser_item]. change (F_VTT =? F_VTT) with true. cbv iota.
     rewrite !app_nil_r, U1, U2, U3. unfold unk_body in *.
